@@ -419,6 +419,11 @@ fn main() {
     cov.insert("rule".into(), json!(format!(
         "struct: {} catalogue messages (17 variants over their boundary domains, 15 unknown types, all 256 type bytes, chains / DN lists / algorithm lists of 255..4000 elements) x every combination of <= {} deviations (each length field in {{0,1,true-1,true+1,max}}, every cut, 4 suffixes), at message level and - header stripped - through each of the 21 pub body parsers; every size of each variable-length field (opaque bodies and certificates to 70000, tickets, status blobs, DNs, extension blocks to 65535, 0..32767 cipher suites, 0..255 compressions; quick tier: the size set of sweep::sizes) with consistent enclosing lengths; complete sweeps of all 65536 versions / cipher ids, all 256 compression ids, session-id lengths, status types, key-update values, certificate types, bit patterns of the 32-bit lifetime; every string of length <= {} over a positional alphabet through parse_tls_message_handshake; hello frames with every tail of length <= {} over a 7-letter alphabet. Oracle: strict walker (Must / MustReject / Unspecified per DESIGN appendix D). Non-trivial: not cut inside the fixed header",
         nmsgs, d, n, tn)));
+    // the same check against the crate built with all cargo features (std, serialize, unstable)
+    let mut sink = sink;
+    if run.tier == Tier::Thorough {
+        run.all_features_variant(&mut sink);
+    }
     let code = run.finish(
         &sink,
         cov,
